@@ -18,7 +18,9 @@ SOURCES = [
     ("sets", "def f(v):\n    return v in {1, 2, 3} or v in ('a', 'b') or v in frozenset([9])\n" if V >= (3, 2) else "def f(v):\n    return v in (1, 2, 3)\n"),
     ("bigtuple", "t = (" + ", ".join(str(i) for i in range(300)) + ")\nu = (" + ", ".join("'s%d'" % i for i in range(270)) + ")\n"),
     ("tryexc", "def g(x):\n    try:\n        with open(x) as fh:\n            for line in fh:\n                yield line\n    except (IOError, ValueError) as e:\n        raise RuntimeError(e)\n    finally:\n        x = None\n"),
-    ("shared", "def h():\n    a = ('shared', 'tuple', 1.25)\n    b = ('shared', 'tuple', 1.25)\n    c = 'shared'\n    return a, b, c, 'shared', 1.25\n"),
+    ("shared", "def h():\n    a = ('shared', 'tuple', 1.25)\n    b = ('shared', 'tuple', 1.25)\n    c = 'shared'\n    return a, b, c, 'shared', 1.25\n"
+               # one complex, one big int and one bytes constant used by several code objects: written once and referenced (FLAG_REF) from 3.4 on
+               "def k1():\n    return 2.5j, 2**70, b'shared bytes'\ndef k2():\n    return (2.5j, 'q r'), 2**70, b'shared bytes'\nk3 = (2.5j, 2**70)\n"),
 ]
 SOURCES += [
     ("subscr", "def def_op(name, op):\n    opname[op] = name\n    opmap[name] = op\n\ndef g(a, i, j):\n    a[i] = a[j]\n    a[i:j] = a[j:i]\n    a[i] += 1\n    del a[j]\n    return a[i][j], a[::2], a[i:j:2]\n"),
